@@ -130,7 +130,9 @@ class NsRun:
         evs = [e for tr in traces for e in tr]
         if not evs:
             return
-        v = vlib.validate_traces(self.sc, target, evs, name="val%d" % len(self.cov["tlc_runs"]))
+        # (memfs-d-win is the Windows-typed MemFS working in an added volume: the same implementation)
+        impl = "memfs-win" if target == "memfs-d-win" else target
+        v = vlib.validate_traces(self.sc, impl, evs, name="val%d" % len(self.cov["tlc_runs"]))
         self.cov["tlc_runs"].append({"trace_validation": target, "events": len(evs), "judged": v["judged"],
                                      "skipped_after_unexplained": v["skipped"], "wall_s": round(v["wall"], 1)})
         self.cov["traces_validated_against_impl"] += len(traces)
